@@ -12,14 +12,14 @@ from ..yieldcount import YieldCounter, verdict
 from .common import EVALUATOR, STEP, receiver_may_be
 
 LEVEL_TEXT = (
-    "Static rules on every GeneticStep whose iterate yields a slice of a sorted population (the elitism steps, found "
-    "structurally): (R1) polarity composition sort-key sign x reverse flag x slice side = 'the k largest maximising "
-    "aggregates'; any single flip changes the verdict; (R2) the list that is sorted is the list that was handed to "
-    "the evaluator before; (R3) exactly k individuals for every k <= n and every iterable form (yield-count "
-    "abstract interpretation + one-shot iterator typestate of that method); (R4) the parallel combinators that host "
-    "elitism hand each sub-step the complete population (not a slice), and the default step / SimpleGP / parameterless "
-    "GP builders place ElitismStep directly under such a combinator. Monotonicity of the best fitness over "
-    "generations follows at run time and is not separately decided."
+    "(R1) finite-model interpretation of every elitism step's iterate (helpers such as sort_population, lambdas, sorted / "
+    "sort / heapq.nlargest modelled) on four symbolic individuals with four fitness assignments (ties at the cut-off, "
+    "negatives, a minimised problem) for k = 1..4: exactly k individuals are kept, none twice, and no dropped individual is "
+    "strictly better than a kept one; (R2) in the same model every individual is handed to the evaluator before any fitness "
+    "is read; (R3) exactly k individuals for every k <= n and every iterable form (yield-count abstract interpretation + "
+    "one-shot iterator typestate); (R4) the combinators that host ElitismStep in the default step / SimpleGP / parameterless "
+    "/ adaptive builders are interpreted on four individuals and two sub-steps: every sub-step application receives the "
+    "complete population. Monotonicity of the best fitness over generations follows at run time and is not separately decided."
 )
 
 
